@@ -14,6 +14,25 @@ namespace {
     error_msg(DebugMsgId::CONST_REASSIGN_ERROR, target.c_str());
     throw std::runtime_error("Cannot modify const variable: " + target);
 }
+
+// ++/-- で格納する新しい値を求める。通常の代入 (x = x + 1) と同じ規則を適用する:
+// unsignedへの負の値は0にクランプし、その後 check_type_range で型範囲を検査する。
+int64_t checked_incdec_value(Interpreter &interpreter, const std::string &op,
+                             int64_t old_value, TypeInfo type, bool is_unsigned,
+                             const std::string &name) {
+    int64_t new_value = old_value;
+    if (op == "++") {
+        new_value += 1;
+    } else if (op == "--") {
+        new_value -= 1;
+    }
+    if (is_unsigned && new_value < 0) {
+        new_value = 0;
+    }
+    interpreter.check_type_range(type, new_value, name, is_unsigned);
+    return new_value;
+}
+
 } // namespace
 
 int64_t evaluate_incdec(
@@ -104,11 +123,9 @@ int64_t evaluate_incdec(
                 target_var->type == TYPE_LONG ||
                 target_var->type == TYPE_CHAR) {
                 old_value = target_var->value;
-                if (node->op == "++") {
-                    target_var->value += 1;
-                } else {
-                    target_var->value -= 1;
-                }
+                target_var->value = checked_incdec_value(
+                    interpreter, node->op, old_value, target_var->type,
+                    target_var->is_unsigned, "*pointer");
                 new_value = target_var->value;
             } else if (target_var->type == TYPE_FLOAT) {
                 old_value = static_cast<int64_t>(target_var->float_value);
@@ -140,11 +157,9 @@ int64_t evaluate_incdec(
                     throw std::runtime_error("Array index out of bounds");
                 }
                 old_value = values[array_index];
-                if (node->op == "++") {
-                    values[array_index] += 1;
-                } else {
-                    values[array_index] -= 1;
-                }
+                values[array_index] = checked_incdec_value(
+                    interpreter, node->op, old_value, element_type,
+                    target_var->is_unsigned, "*pointer");
                 new_value = values[array_index];
             } else if (element_type == TYPE_FLOAT) {
                 auto &values = target_var->is_multidimensional
@@ -322,10 +337,17 @@ int64_t evaluate_incdec(
             // 整数型
             int64_t old_value = var->value;
 
-            if (node->op == "++") {
-                var->value += 1;
-            } else if (node->op == "--") {
-                var->value -= 1;
+            if (var->is_reference) {
+                // 参照変数は従来どおり（valueは参照先へのポインタ）
+                if (node->op == "++") {
+                    var->value += 1;
+                } else if (node->op == "--") {
+                    var->value -= 1;
+                }
+            } else {
+                var->value = checked_incdec_value(
+                    interpreter, node->op, old_value, var->type,
+                    var->is_unsigned, node->left->name);
             }
 
             if (node->node_type == ASTNodeType::AST_PRE_INCDEC) {
@@ -474,10 +496,21 @@ int64_t evaluate_incdec(
             snprintf(old_str, sizeof(old_str), "%" PRId64, old_value);
             debug_msg(DebugMsgId::INCDEC_OLD_VALUE, old_str);
 
-            if (node->op == "++") {
-                values[index] += 1;
-            } else if (node->op == "--") {
-                values[index] -= 1;
+            // 要素型（1次元配列の要素代入と同じ求め方。ポインタ配列は検査しない）
+            TypeInfo elem_type =
+                (array_var->type >= TYPE_ARRAY_BASE)
+                    ? static_cast<TypeInfo>(array_var->type - TYPE_ARRAY_BASE)
+                    : array_var->type;
+            if (elem_type == TYPE_POINTER || array_var->is_pointer) {
+                if (node->op == "++") {
+                    values[index] += 1;
+                } else if (node->op == "--") {
+                    values[index] -= 1;
+                }
+            } else {
+                values[index] = checked_incdec_value(
+                    interpreter, node->op, old_value, elem_type,
+                    array_var->is_unsigned, array_name);
             }
 
             char new_str[32];
